@@ -12,6 +12,7 @@ from harness.modelgen import Oracle, Unbounded, nm, un
 
 AREA = "core"
 PROPS = "PropsC13.v"
+PROOF_AREA = "coreproofs"
 
 
 def gen() -> dict:
@@ -89,7 +90,7 @@ def check(run: Run) -> None:
         "parameter/variable names, Simulator default y0, and the full argument table at the declared initial state and two other "
         "states/times (frozen vs recomputed); non-trivial = model has an initial assignment or a derived quantity; distinct by model"
     )
-    run.check_proofs(AREA, PROPS)
+    run.check_proofs(PROOF_AREA, PROPS)
     run.assumptions += [
         "Coq 8.16.1 kernel + vm_compute; theorems closed under the global context (see trusted_base)",
         "function meaning abstracted as fsem/fsemN; floats modelled as Z (exact for the polynomial library); arity check outside the model",
